@@ -286,7 +286,7 @@ def one_run(ctx, c, family="opt"):
         ctx.check("C06.front", dm is None, site, "no returned member dominated by another", icls,
                   witness=dict(w, dominated_pair=dm, objectives=Ff, violation=CV), coords=coords)
     # ---- exhaustive sorting optimiser on separable problems
-    if name == "SortingSubsetOptimizationAlgorithm" and dcls in ("plain", "ties") and n <= 12:
+    if name == "SortingSubsetOptimizationAlgorithm" and dcls.split("/")[0] in ("plain", "ties") and n <= 12:
         best = min(float(numpy.sum(prob.evalfn(numpy.array(s))[0])) for s in itertools.combinations(prob.decn_space.tolist(), k))
         got = float(numpy.sum(fresh[0][0]))
         ctx.check("C06.sorting", got <= best + TOL * (1 + abs(best)), site, "attains the brute-force optimum of a separable problem", icls,
